@@ -118,7 +118,7 @@ def item_src(it):
     if k == "bounds":
         preds = ["'static: 'static" if OTHER[o] is None else "%s: ::scale_info::TypeInfo + 'static" % OTHER[o] for o in it.get("other", [])]
         return "bounds(%s)" % ", ".join(preds + ["%s: ::scale_info::TypeInfo + 'static" % p for p in it["ps"]])
-    if k == "skip_type_params": return "skip_type_params(%s)" % ", ".join(it["ps"])
+    if k == "skip_type_params": return "skip_type_params(%s)" % ", ".join("T" if p == "TT" else p for p in it["ps"])
     if k == "capture_docs": return 'capture_docs = "%s"' % it["val"]
     if k == "crate": return "crate = ::scale_info"
     if k == "replace_segment": return 'replace_segment("a", "b")'
